@@ -229,6 +229,15 @@ fn main() {
     .collect();
   let files = if run.quick() { corpus::smallest(files, 22) } else { files };
   let mut bases: Vec<(String, String)> = files.iter().map(|f| (f.name.clone(), f.text.clone())).collect();
+  // hand-written bases for printer paths no corpus file reaches (merged / sorted import lines)
+  bases.push((
+    "inline repeated-imports".to_string(),
+    "import { A, B } from Lib.Util\nimport { C } from Lib.Other\nimport { D } from Lib.Util\nimport { E, F } from Lib.Util\nimport { G } from Lib.Other\n\nclass Main {\n  function main(): unit = {}\n}\n".to_string(),
+  ));
+  bases.push((
+    "inline unsorted-imports".to_string(),
+    "import { Zed } from Z.Last\nimport { Mid } from M.Middle\nimport { Abc } from A.First\n\nclass Main {\n  function main(): unit = {}\n}\n".to_string(),
+  ));
   // generated forms: every expression template once, in a member body
   let l0 = exprgen::level(0, &[]);
   let l1 = exprgen::level(1, &l0[..1]);
